@@ -39,6 +39,23 @@ example : red2 0xff03 = 0xaa02 := by decide
 theorem red4_fields (p : Nat) : red4 p = mapB h2 8 p := red4_bytes p
 example : red4 0xaa02 = 0x4402 := by decide
 
+/-- popcount.c:53-80, the body of the 4-limb unrolled loop: for ALL limbs u0..u3 < 2^64 the value added to `result`
+    is the exact number of one bits of the four limbs.  (Proof: p01/p23 have byte fields popc(byte of u0)+popc(byte of u1)
+    ≤ 16 — comment "8 0-16"; their sum has fields ≤ 32 — "8 0-32"; the folds :76, :77 add fields without a carry crossing
+    a byte — "8 0-64", "8 0-128"; :79 adds the two masked half sums.) -/
+theorem block_eq (u0 u1 u2 u3 : Nat) (h0 : u0 < B) (h1 : u1 < B) (h2 : u2 < B) (h3 : u3 < B) :
+    block u0 u1 u2 u3 = Bits.popc u0 + Bits.popc u1 + Bits.popc u2 + Bits.popc u3 := block_popc u0 u1 u2 u3 h0 h1 h2 h3
+example : block 0xff (B - 1) 0 0x8000000000000001 = 74 := by decide
+
+/-- range comment "8 0-256" of popcount.c:79: a block contributes at most 256 (and 256 is attained, see the examples
+    below: it does not fit a byte field, which is why :79 masks before adding). -/
+theorem block_le_256 (u0 u1 u2 u3 : Nat) (h0 : u0 < B) (h1 : u1 < B) (h2 : u2 < B) (h3 : u3 < B) :
+    block u0 u1 u2 u3 ≤ 256 := by
+  rw [block_eq u0 u1 u2 u3 h0 h1 h2 h3]
+  have := popc_le_64 u0; have := popc_le_64 u1; have := popc_le_64 u2; have := popc_le_64 u3
+  omega
+example : block (B - 1) (B - 1) (B - 1) (B - 1) = 256 := by decide
+
 /-! popcount.c:79 masks BEFORE adding: a full block contributes 256, which does not fit the byte field.  The variant
     `x = (x >> 32) + x; … x & 0xff` (what the tail at :112-114 does, where at most 3 limbs = 192 bits arrive) is WRONG
     for the block: on four all-ones limbs it yields 0. -/
